@@ -109,10 +109,25 @@ type exec struct {
 	handlers map[int]any // tag -> *peerHandler (opaque)
 	end      *endSnap
 	mid      []*eng.Violation // violations found by "check" actions
+	seen     map[int][]obs    // tag -> history of the handler's reconnectTimer pointer, sampled at every logged event
 	start    time.Time
 }
 
+type obs struct {
+	pos int // log position at which the value was first seen
+	tm  any
+}
+
 func (x *exec) rec(e ev) int {
+	for tag, h := range x.handlers {
+		if h == nil {
+			continue
+		}
+		tm, _ := peering.VerifHandlerTimer(h)
+		if l := x.seen[tag]; len(l) == 0 || l[len(l)-1].tm != tm {
+			x.seen[tag] = append(l, obs{len(x.log), tm})
+		}
+	}
 	e.thr = vsched.CurrentThread()
 	e.nthr = vsched.ThreadCount()
 	e.t = vsched.Now().Sub(x.start)
@@ -311,6 +326,7 @@ func (x *exec) Main() {
 	sc := x.sc
 	x.start = vsched.Now()
 	x.handlers = map[int]any{}
+	x.seen = map[int][]obs{}
 	x.net = &fakeNet{x: x, conn: map[peer.ID]bool{}}
 	for _, p := range sc.connInit {
 		x.net.conn[pids[p]] = true
@@ -382,6 +398,7 @@ type model struct {
 	stopRet    int
 	stopNthr   int
 	stopSnap   map[int]any
+	deadStart  map[int]int // tag -> position of the remove-start of the RemovePeer that ended its incarnation
 	addStart   map[int]int   // tag -> position of add-start
 	tagPeer    map[int]int   // tag -> peer
 	alive      map[int][]int // peer -> tags of the current incarnation
@@ -393,8 +410,9 @@ type model struct {
 }
 
 func (x *exec) model(upto int) *model {
-	m := &model{startOK: -1, stopStart: -1, stopRet: -1, addStart: map[int]int{}, tagPeer: map[int]int{}, alive: map[int][]int{}, deadPos: map[int]int{}, deadNthr: map[int]int{}, deadSnap: map[int]map[int]any{}, lastDial: map[int]string{}, okDialSawD: map[int]bool{}}
+	m := &model{startOK: -1, stopStart: -1, stopRet: -1, addStart: map[int]int{}, tagPeer: map[int]int{}, alive: map[int][]int{}, deadPos: map[int]int{}, deadNthr: map[int]int{}, deadSnap: map[int]map[int]any{}, deadStart: map[int]int{}, lastDial: map[int]string{}, okDialSawD: map[int]bool{}}
 	var lastRemoveSnap = map[int]map[int]any{}
+	lastRemoveStart := map[int]int{}
 	pendingOK := map[int]int{} // thread -> peer: thread returned from an ok/flap dial and has not queried yet
 	for i := 0; i < upto && i < len(x.log); i++ {
 		e := x.log[i]
@@ -417,9 +435,10 @@ func (x *exec) model(upto int) *model {
 			m.alive[e.peer] = append(m.alive[e.peer], e.tag)
 		case "remove-start":
 			lastRemoveSnap[e.peer] = e.snap
+			lastRemoveStart[e.peer] = i
 		case "remove-ret":
 			for _, tag := range m.alive[e.peer] {
-				m.deadPos[tag], m.deadNthr[tag], m.deadSnap[tag] = i, e.nthr, lastRemoveSnap[e.peer]
+				m.deadPos[tag], m.deadNthr[tag], m.deadSnap[tag], m.deadStart[tag] = i, e.nthr, lastRemoveSnap[e.peer], lastRemoveStart[e.peer]
 			}
 			m.alive[e.peer] = nil
 		case "dial-ret":
@@ -476,30 +495,44 @@ func (x *exec) checkScheduled(s *endSnap, upto int, where string) []*eng.Violati
 func (x *exec) violations() []*eng.Violation {
 	out := append([]*eng.Violation{}, x.mid...)
 	m := x.model(len(x.log))
-	created := func(cur any, snap map[int]any, tag int) string {
-		// was the timer that drives this attempt created after Stop/RemovePeer was called?
+	created := func(cur any, snap map[int]any, tag, from, to int) string {
+		// was a timer that drives this handler's attempts created after Stop/RemovePeer was called (log position
+		// from)? The handler's reconnectTimer is sampled at every logged event up to position to; cur is its value now.
+		old, had := snap[tag]
+		isNew := func(tm any) bool { return tm != nil && (!had || tm != old) }
+		for _, o := range x.seen[tag] {
+			if o.pos > from && o.pos <= to && isNew(o.tm) {
+				return "true"
+			}
+		}
+		if isNew(cur) {
+			return "true"
+		}
 		if cur == nil {
 			return "timer-nil"
 		}
-		if old, ok := snap[tag]; ok && old == cur {
-			return "false"
-		}
-		return "true"
+		return "false"
 	}
 	addedAfter := func(tag, pos int) string { return fmt.Sprint(m.addStart[tag] > pos) }
+	// a handler whose RemovePeer had returned before Stop was called is no longer known to the service:
+	// attempts made for it are attributed to RemovePeer only
+	removedBefore := func(tag, pos int) bool {
+		dp, ok := m.deadPos[tag]
+		return ok && dp < pos
+	}
 	// (ii) dial attempts after Stop / RemovePeer returned. An attempt whose timer had already fired
 	// (its reconnect thread existed) when the call returned overlaps the call and may linearize before it.
 	for i, e := range x.log {
 		if e.kind != "dial" {
 			continue
 		}
-		if m.stopRet >= 0 && i > m.stopRet && e.thr >= m.stopNthr {
+		if m.stopRet >= 0 && i > m.stopRet && e.thr >= m.stopNthr && !removedBefore(e.tag, m.stopStart) {
 			out = append(out, eng.V("reconnect-after-stop", "Stop", fmt.Sprintf("peer %d (addr tag %d) was dialled at +%v by a reconnect timer that fired after Stop() had returned\n%s", e.peer, e.tag, e.t, x.logString()),
-				"observed", "dial", "timer_created_after_call", created(e.tm, m.stopSnap, e.tag), "added_after_call", addedAfter(e.tag, m.stopRet)))
+				"observed", "dial", "timer_created_after_call", created(e.tm, m.stopSnap, e.tag, m.stopStart, i), "added_after_call", addedAfter(e.tag, m.stopRet)))
 		}
 		if dp, ok := m.deadPos[e.tag]; ok && i > dp && e.thr >= m.deadNthr[e.tag] {
 			out = append(out, eng.V("reconnect-after-stop", "RemovePeer", fmt.Sprintf("peer %d (addr tag %d) was dialled at +%v by a reconnect timer that fired after RemovePeer() had returned\n%s", e.peer, e.tag, e.t, x.logString()),
-				"observed", "dial", "timer_created_after_call", created(e.tm, m.deadSnap[e.tag], e.tag), "added_after_call", "false"))
+				"observed", "dial", "timer_created_after_call", created(e.tm, m.deadSnap[e.tag], e.tag, m.deadStart[e.tag], i), "added_after_call", "false"))
 		}
 	}
 	// a reconnect timer still armed at the end for a stopped/removed handler: the attempt is scheduled and nothing can cancel it
@@ -508,13 +541,13 @@ func (x *exec) violations() []*eng.Violation {
 			if !s.armed[tag] {
 				continue
 			}
-			if m.stopRet >= 0 {
+			if m.stopRet >= 0 && !removedBefore(tag, m.stopStart) {
 				out = append(out, eng.V("reconnect-after-stop", "Stop", fmt.Sprintf("at the end of the execution peer %d (addr tag %d) has a reconnect timer armed (fires in %v) although Stop() returned\n%s", m.tagPeer[tag], tag, s.remaining[tag], x.logString()),
-					"observed", "armed-timer", "timer_created_after_call", created(s.timer[tag], m.stopSnap, tag), "added_after_call", addedAfter(tag, m.stopRet)))
+					"observed", "armed-timer", "timer_created_after_call", created(s.timer[tag], m.stopSnap, tag, m.stopStart, len(x.log)), "added_after_call", addedAfter(tag, m.stopRet)))
 			}
 			if _, ok := m.deadPos[tag]; ok {
 				out = append(out, eng.V("reconnect-after-stop", "RemovePeer", fmt.Sprintf("at the end of the execution removed peer %d (addr tag %d) has a reconnect timer armed (fires in %v)\n%s", m.tagPeer[tag], tag, s.remaining[tag], x.logString()),
-					"observed", "armed-timer", "timer_created_after_call", created(s.timer[tag], m.deadSnap[tag], tag), "added_after_call", "false"))
+					"observed", "armed-timer", "timer_created_after_call", created(s.timer[tag], m.deadSnap[tag], tag, m.deadStart[tag], len(x.log)), "added_after_call", "false"))
 			}
 		}
 		// (i) at the final quiescent point
